@@ -48,7 +48,7 @@ func genC16(t *rapid.T) bson.D {
 	for i, m := 0, rapid.IntRange(0, 150).Draw(t, "tapelen"); i < m; i++ {
 		tape = append(tape, int32(rapid.SampledFrom([]int{0, 0, 1, 2, 2, 3, 3}).Draw(t, "tape")))
 	}
-	return bson.D{{Key: "actors", Value: actors}, {Key: "tape", Value: tape}, {Key: "procs", Value: int32(rapid.SampledFrom([]int{2, 4, 16}).Draw(t, "procs"))}, {Key: "finale", Value: int32(rapid.IntRange(0, 2).Draw(t, "finale"))}}
+	return bson.D{{Key: "actors", Value: actors}, {Key: "tape", Value: tape}, {Key: "procs", Value: int32(rapid.SampledFrom([]int{2, 4, 16}).Draw(t, "procs"))}, {Key: "finale", Value: int32(rapid.IntRange(0, 3).Draw(t, "finale"))}}
 }
 
 type c16Env struct {
@@ -657,6 +657,80 @@ func runC16Once(c bson.D, x *Ctx) error {
 			case <-time.After(tLive):
 				lungo.VerifHook.Store(nil)
 				return fmt.Errorf("Begin(lock) did not return within %v after Engine.Close\n%s", tLive, goroutineDump())
+			}
+			atomic.StoreInt32(&e.closed, 1)
+		case 3:
+			// Engine.Close is held where it has released the engine lock and
+			// not yet closed the streams: from then on the engine is closed
+			// for everybody - a Watch is refused or its stream ends with the
+			// shutdown, a write is refused or completes without a panic
+			st0, werr := client.Database("probe").Collection("p").Watch(context.Background(), bson.A{})
+			if werr != nil {
+				return fmt.Errorf("Watch before shutdown failed: %v", werr)
+			}
+			parked := make(chan struct{})
+			resume := make(chan struct{})
+			var once sync.Once
+			hk := func(point string) {
+				if point == "close.unlocked" {
+					once.Do(func() {
+						close(parked)
+						<-resume
+					})
+				}
+			}
+			lungo.VerifHook.Store(&hk)
+			cdone := make(chan struct{})
+			go func() { engine.Close(); close(cdone) }()
+			select {
+			case <-parked:
+			case <-time.After(tLive):
+				close(resume)
+				lungo.VerifHook.Store(nil)
+				return fmt.Errorf("Engine.Close did not release the engine lock within %v\n%s", tLive, goroutineDump())
+			}
+			late, lerr := client.Database("probe").Collection("p").Watch(context.Background(), bson.A{})
+			var ipanic interface{}
+			func() {
+				defer func() { ipanic = recover() }()
+				ictx, icancel := context.WithTimeout(context.Background(), 3*time.Second)
+				defer icancel()
+				_, _ = client.Database("probe").Collection("p").InsertOne(ictx, bson.D{{Key: "_id", Value: "during-close"}})
+			}()
+			close(resume)
+			select {
+			case <-cdone:
+			case <-time.After(tLive):
+				lungo.VerifHook.Store(nil)
+				return fmt.Errorf("Engine.Close did not return within %v\n%s", tLive, goroutineDump())
+			}
+			lungo.VerifHook.Store(nil)
+			if ipanic != nil {
+				return fmt.Errorf("a write issued while the engine was shutting down panicked: %v", ipanic)
+			}
+			for name, sx := range map[string]lungo.IChangeStream{"opened before the shutdown": st0, "opened while the engine was shutting down": late} {
+				if sx == nil {
+					continue
+				}
+				sx := sx
+				// events committed during the window may still be delivered;
+				// then the stream ends
+				for round := 0; round < 4; round++ {
+					ended := make(chan bool, 1)
+					nctx, ncancel := context.WithTimeout(context.Background(), 60*time.Second)
+					go func() { ended <- sx.Next(nctx) }()
+					more := false
+					select {
+					case more = <-ended:
+						ncancel()
+					case <-time.After(tLive):
+						ncancel()
+						return fmt.Errorf("a stream %s (Watch error: %v) is still blocked in Next %v after Engine.Close returned: the shutdown never ended it\n%s", name, lerr, tLive, goroutineDump())
+					}
+					if !more {
+						break
+					}
+				}
 			}
 			atomic.StoreInt32(&e.closed, 1)
 		}
